@@ -370,7 +370,7 @@ theorem step_keysOk {R} {cfg : Cfg} {reg : Reg} {e : Event} (hg : RegGood H R re
             simp only
             split
             · exact hk1
-            · have hm := anotify_monoD (H := H) (P := P) (drop := !cfg.sql) (ctx := ctx) (a := a)
+            · have hm := anotify_monoD (H := H) (P := P) (drop := false) (ctx := ctx) (a := a)
               exact hk1.of_same (setAmp_keys hg1 (findAmp_some hfa).1 hm.1 hm.2.2.1 _)
   | settle p =>
     simp only [step]
